@@ -20,6 +20,10 @@ What the Go code does (as it is now):
   i.e. each processing synchronously appends to the session's `chSend`
   (a session that is closed / gone drops the item: `lost`);
 * one writer goroutine per session drains `chSend` to the connection (`write`);
+  `chSend` is bounded (9999): when it is full — a client that does not read —
+  the goroutine that pushes next blocks in `pushToSend` until the writer took a
+  packet (`full`: the step is not enabled), it does NOT hand the packet to
+  anybody else;
 * the front itself as issuer (front-local handler): the response is written
   with `ResponseMID` in place, and — since the repair of D8, `pushLocal` — so is a
   push whose target front is the issuing service (`localDirect = true`).  Before
@@ -67,6 +71,8 @@ structure Cfg where
   cap : Nat                   -- sche.QueueSize
   defend : Bool               -- sche.selfBlockDefend (overflow path)
   localDirect : Bool := true  -- pushLocal: a front-local push is written in place (D8 repaired)
+  chCap : Nat := 9999         -- capacity of ClientSession.chSend
+  sendOverflow : Bool := false  -- NOT in the code: `pushToSend` handing a packet to a fresh goroutine when chSend is full
   deriving Repr
 
 /-- the front-end service that owns the connections -/
@@ -87,17 +93,29 @@ structure St where
   lost : Nat → List Item := fun _ => []             -- ghost: dropped because the session is closed
   socket : Nat → List Item := fun _ => []           -- what the writer wrote, per connection
   closed : Nat → Bool := fun _ => false
+  spill : List Item := []                           -- only with `sendOverflow`: packets owned by helper goroutines
 
 /-- the items of thread `σ` towards client `c` in a list, in list order -/
 def sel (σ : Src) (c : Nat) (l : List Item) : List Item := l.filter (fun x => x.src = σ ∧ x.client = c)
 
 /-- the counter the next item of `σ` towards `c` carries -/
-def nextSeq (s : St) (σ : Src) (c : Nat) : Nat := (sel σ c s.issued).length
+def nextSeq (s : St) (σ : Src) (c : Nat) : Nat := s.issued.countP (fun x => x.src = σ ∧ x.client = c)
 
 /-- `Push` / `ResponseMID` on the session object: enqueue on `chSend`, or drop when closed -/
 def toSession (s : St) (x : Item) : St :=
   if s.closed x.client then { s with lost := upd s.lost x.client (s.lost x.client ++ [x]) }
   else { s with chSend := upd s.chSend x.client (s.chSend x.client ++ [x]) }
+
+/-- the session's send queue is full: `s.chSend <- p` (`pushToSend`) blocks the
+calling service goroutine until the writer has taken a packet (a client that
+reads slowly / not at all); a closed session never blocks (the item is dropped) -/
+def full (cfg : Cfg) (s : St) (c : Nat) : Bool := !s.closed c && decide ((s.chSend c).length ≥ cfg.chCap)
+
+/-- does `S`'s goroutine write `x` to the session itself (front-local response; front-local push with `pushLocal`) -/
+def inPlace (cfg : Cfg) (S : Nat) (x : Item) : Bool := decide (S = front) && (cfg.localDirect || decide (x.kind = .resp))
+
+/-- only with `sendOverflow`: the packet is handed to a helper goroutine -/
+def spillTo (s : St) (x : Item) : St := { s with spill := s.spill ++ [x] }
 
 /-- service `S`'s goroutine hands item `x` to the framework -/
 def emit (cfg : Cfg) (s : St) (S : Nat) (x : Item) : St :=
@@ -117,18 +135,25 @@ inductive Label
   | write (c : Nat)                     -- the session's writer moves the head of chSend to the socket
   | close (c : Nat)                     -- the session is closed
   | writerStop (c : Nat)                -- the writer of a closed session returns; what is left in chSend is lost
+  | spillSend (i : Nat)                 -- only with `sendOverflow`: a helper goroutine's send completes
   deriving Repr
 
-def fire (cfg : Cfg) (s : St) : Label → Option St
+/-- one step, with the counter source as a parameter (`fire` below passes
+`nextSeq s`; the model driver passes the counter it keeps incrementally, which
+is the same number — `fireAt_congr`) -/
+def fireAt (cfg : Cfg) (s : St) (seqOf : Src → Nat → Nat) : Label → Option St
   | .issue S c k =>
-    let x : Item := ⟨⟨S, 0⟩, c, nextSeq s ⟨S, 0⟩ c, k⟩
-    some (emit cfg { s with issued := s.issued ++ [x] } S x)
+    let x : Item := ⟨⟨S, 0⟩, c, seqOf ⟨S, 0⟩ c, k⟩
+    if inPlace cfg S x && full cfg s c then
+      -- the front's goroutine is blocked on the full send queue
+      if cfg.sendOverflow then some (spillTo { s with issued := s.issued ++ [x] } x) else none
+    else some (emit cfg { s with issued := s.issued ++ [x] } S x)
   | .post S p c k =>
     let σ : Src := ⟨S, p + 1⟩
     match s.out σ with
     | some _ => none                        -- the worker is blocked in its previous Post
     | none =>
-      let x : Item := ⟨σ, c, nextSeq s σ c, k⟩
+      let x : Item := ⟨σ, c, seqOf σ c, k⟩
       if cfg.defend ∧ (s.task S).length ≥ cfg.cap - 10 then
         some { s with issued := s.issued ++ [x], detached := upd s.detached S (s.detached S ++ [x]) }
       else
@@ -150,7 +175,10 @@ def fire (cfg : Cfg) (s : St) : Label → Option St
   | .run S =>
     match s.task S with
     | [] => none
-    | x :: rest => some (emit cfg { s with task := upd s.task S rest } S x)
+    | x :: rest =>
+      if inPlace cfg S x && full cfg s x.client then
+        if cfg.sendOverflow then some (spillTo { s with task := upd s.task S rest } x) else none
+      else some (emit cfg { s with task := upd s.task S rest } S x)
   | .deliver S =>
     match s.transport S with
     | [] => none
@@ -158,7 +186,11 @@ def fire (cfg : Cfg) (s : St) : Label → Option St
   | .process =>
     match s.mailbox with
     | [] => none
-    | x :: rest => some (toSession { s with mailbox := rest } x)
+    | x :: rest =>
+      if full cfg s x.client then
+        -- blocked on the full send queue: the whole front waits
+        if cfg.sendOverflow then some (spillTo { s with mailbox := rest } x) else none
+      else some (toSession { s with mailbox := rest } x)
   | .write c =>
     match s.chSend c with
     | [] => none
@@ -169,6 +201,20 @@ def fire (cfg : Cfg) (s : St) : Label → Option St
     if s.closed c then
       some { s with chSend := upd s.chSend c [], lost := upd s.lost c (s.chSend c ++ s.lost c) }
     else none
+  | .spillSend i =>
+    match s.spill[i]? with
+    | none => none
+    | some x =>
+      if full cfg s x.client then none
+      else some (toSession { s with spill := s.spill.eraseIdx i } x)
+
+/-- one atomic step of the network -/
+def fire (cfg : Cfg) (s : St) (l : Label) : Option St := fireAt cfg s (nextSeq s) l
+
+theorem fireAt_congr (cfg : Cfg) (s : St) (seqOf : Src → Nat → Nat) (l : Label)
+    (h : ∀ σ c, seqOf σ c = nextSeq s σ c) : fireAt cfg s seqOf l = fire cfg s l := by
+  have : seqOf = nextSeq s := funext fun σ => funext fun c => h σ c
+  rw [this, fire]
 
 /-- run a label sequence (none as soon as a label is not enabled) -/
 def run (cfg : Cfg) : St → List Label → Option St
